@@ -1,8 +1,14 @@
 """C08 check configuration."""
 
 PROP = {
-    "pkg": "internal/dnsforward",
-    "files": ["dnsforward/common_world_test.go", "dnsforward/c01_test.go", "dnsforward/c08_test.go"],
+    "parts": [
+        {"name": "server", "pkg": "internal/dnsforward",
+         "files": ["dnsforward/common_world_test.go", "dnsforward/c01_test.go", "dnsforward/c08_test.go"],
+         "tests": [("TestVFC08Ignore", (400, 1500))]},
+        {"name": "home_adapters", "pkg": "internal/home",
+         "files": ["home/common_assembly_test.go", "home/c08_adapters_test.go"],
+         "tests": [("TestVFC08HomeAdapters", (1500, 6000))], "shards": (1, 8)},
+    ],
     "level": "exploration",
     "technique": "property-based testing (rapid): constructive expectation (names built from ignore rules, clients from "
                  "flagged persistent clients) checked on every observation surface: log API, log file bytes, stats API, "
@@ -17,12 +23,10 @@ PROP = {
                   "with the expectation: ignored => absent everywhere, not ignored => present exactly once; with "
                   "anonymisation on every address anywhere has its last 16/80 bits zero.",
     "level_note": "The two adapter functions of internal/home/clients.go (findMultiple, shouldCountClient) cannot be "
-                  "imported here; the harness restates them (FindLoose / Find over the real storage). Wildcard rules on "
+                  "imported into dnsforward; the server part restates them (FindLoose / Find over the real storage) and "
+                  "the home_adapters part checks the real ones against the same ownership model. Wildcard rules on "
                   "names that merely contain the pattern are tagged ambiguous. Changing the ignore list while entries "
                   "are in memory is not asserted.",
-    "tests": [
-        ("TestVFC08Ignore", (400, 1500)),
-    ],
     "shards": (2, 16),
     "workers": (4, 16),
     "rule": "evaluations = queries sent. Non-trivial = configuration with >=1 ignored and >=1 fully recorded query; "
